@@ -72,6 +72,14 @@ class Ctx:
             "emfile_at": knobs.get("emfile_at"),
             "relpaths": knobs.get("relpaths", False),
         }
+        if knobs.get("preexist"):
+            # a re-run: the output files are already there, longer than what will be written now
+            files = dict(files)
+            stale = b"@stale_record_of_an_earlier_run\nACGTACGTAC\n+\nIIIIIIIIII\n" * 40
+            for a in argv:
+                for tok in ([a] if a.startswith("/simfs/") else [a.split("=", 1)[1]] if ("=/simfs/" in a and a.startswith("--")) else []):
+                    if "{" not in tok and tok not in files:
+                        files[tok] = stale
         if argv and argv[-1] == "-":
             # the (single) input file is fed to standard input
             cands = sorted(p for p in files if p == "/simfs/in" or p.startswith("/simfs/in."))
